@@ -938,16 +938,67 @@ def py_env(env):
     return out
 
 
+class _TooLarge(Exception):
+    pass
+
+
+_BINOPS = {ast.Add: lambda a, b: a + b, ast.Sub: lambda a, b: a - b, ast.Mult: lambda a, b: a * b, ast.Div: lambda a, b: a / b}
+_CMPOPS = {ast.Eq: lambda a, b: a == b, ast.NotEq: lambda a, b: a != b, ast.Lt: lambda a, b: a < b, ast.LtE: lambda a, b: a <= b,
+           ast.Gt: lambda a, b: a > b, ast.GtE: lambda a, b: a >= b}
+
+
+def _walk(node, env):
+    """evaluate a CPython AST node by node with CPython's own operators (same values as `eval`), except that an integer power
+    that would have more than 4096 bits is refused (`a**b**c` printed for `(a**b)**c` can be astronomically large)"""
+    if isinstance(node, ast.Expression):
+        return _walk(node.body, env)
+    if isinstance(node, ast.Constant):
+        return node.value
+    if isinstance(node, ast.Name):
+        return env[node.id]
+    if isinstance(node, ast.UnaryOp):
+        v = _walk(node.operand, env)
+        return -v if isinstance(node.op, ast.USub) else (not v) if isinstance(node.op, ast.Not) else +v
+    if isinstance(node, ast.BinOp):
+        a, b = _walk(node.left, env), _walk(node.right, env)
+        if isinstance(node.op, ast.Pow):
+            if isinstance(a, int) and isinstance(b, int) and not isinstance(a, bool) and not isinstance(b, bool) \
+                    and b > 0 and abs(a) > 1 and a.bit_length() * b > 4096:
+                raise _TooLarge()
+            return a ** b
+        return _BINOPS[type(node.op)](a, b)
+    if isinstance(node, ast.BoolOp):
+        v = _walk(node.values[0], env)
+        for n in node.values[1:]:
+            if isinstance(node.op, ast.And) and not v or isinstance(node.op, ast.Or) and v:
+                return v
+            v = _walk(n, env)
+        return v
+    if isinstance(node, ast.Compare):
+        left = _walk(node.left, env)
+        for op, c in zip(node.ops, node.comparators):
+            right = _walk(c, env)
+            if not _CMPOPS[type(op)](left, right):
+                return False
+            left = right
+        return True
+    raise TypeError(type(node).__name__)
+
+
 def cpy_eval(text, env):
     """CPython's value of an expression text: ('i', n) | ('r', Fraction) | ('b', v) | ('err', name)"""
     try:
-        v = eval(compile(text, '<expr>', 'eval'), {'__builtins__': {}}, py_env(env))
+        v = _walk(ast.parse(text, mode='eval'), py_env(env))
     except (ZeroDivisionError, OverflowError, TypeError) as e:
         return ('err', type(e).__name__)
+    except _TooLarge:
+        return ('err', 'toolarge')
     if isinstance(v, bool):
         return ('b', v)
     if isinstance(v, int):
         return ('i', v)
+    if isinstance(v, complex):
+        return ('err', 'complex')
     if isinstance(v, float):
         if v != v or v in (float('inf'), float('-inf')):
             return ('err', 'nan')
